@@ -1138,7 +1138,41 @@ def rule_value_parsed_whole(ctx: Ctx, rep: Report) -> None:
     rep.floor(rule, 2)
 
 
+def rule_no_character_skipped(ctx: Ctx, rep: Report) -> None:
+    """C05.no_character_skipped: a text form is read whole: where a reader takes
+    `text[:a]` and `text[b:]` with b > a, the characters a .. b-1 it slices over
+    are a separator, and are compared with it before the two parts are used --
+    else "deadbeefX44h/0" reads as the key origin deadbeef/44h/0, a string the
+    writer never writes, and the round trip of the text form is not one."""
+    rule = "C05.no_character_skipped"
+    n = 0
+    for q, fi in sorted(ctx.prog.functions.items()):
+        if not q.startswith(("btclib.bip32.key_origin.", "btclib.bip32.bip32.", "btclib.tx.", "btclib.psbt.psbt_utils.")):
+            continue
+        sl = [x for x in own_nodes(fi.node) if isinstance(x, ast.Subscript) and isinstance(x.slice, ast.Slice) and isinstance(x.value, ast.Name) and x.slice.step is None]
+        heads = [(x.value.id, ctx.fold(x.slice.upper, fi.module)) for x in sl if x.slice.lower is None and x.slice.upper is not None]
+        tails = [(x.value.id, ctx.fold(x.slice.lower, fi.module), x) for x in sl if x.slice.upper is None and x.slice.lower is not None]
+        for name, b, node in tails:
+            for name2, a in heads:
+                if name2 != name or not isinstance(a, int) or not isinstance(b, int) or b <= a or a < 0:
+                    continue
+                # only text readers: the name is a str parameter / derived from one
+                a_ = fi.node.args
+                strp = {p_.arg for p_ in a_.posonlyargs + a_.args if p_.annotation is not None and str(norm(p_.annotation)) in ("str", "String")}
+                if name not in strp:
+                    continue
+                n += 1
+                gap = [x for x in own_nodes(fi.node) if isinstance(x, ast.Subscript) and isinstance(x.value, ast.Name) and x.value.id == name and x is not node
+                       and ((isinstance(x.slice, ast.Slice) and ctx.fold(x.slice.lower, fi.module) == a) or ctx.fold(x.slice, fi.module) == a)]
+                tested = any(isinstance(parent(x), ast.Compare) for x in gap)
+                rep.ob(rule, f"{q}:{name}[{a}:{b}]", tested, fi.where(node), f"the character(s) {name}[{a}:{b}] are compared before the parts are used" if tested else
+                       f"`{name}[:{a}]` and `{name}[{b}:]` are used and `{name}[{a}:{b}]` is never looked at: any character there is accepted as the separator")
+    rep.floor(rule, 1)
+
+
 RULES = [
+    ("C05.no_character_skipped", rule_no_character_skipped),
+
     ("C05.value_parsed_whole", rule_value_parsed_whole),
 
     ("C05.time_keeps_its_offset", rule_time_keeps_its_offset),
